@@ -270,6 +270,21 @@ struct Runner {
         else { if (full) x.m.pop_front(); x.m.push_back(v); }
         if (E::val(*r) != v) fail("C04", "model-mismatch", op, "pushing an element of the buffer itself inserted " + std::to_string(E::val(*r)) + " instead of " + std::to_string(v));
     }
+    // emplace with two constructor arguments (parenthesised construction, not list-initialisation)
+    void emplacePair(int i, bool front) {
+        if constexpr (kTracked) {
+            Slot &x = s[i];
+            bool full = x.m.size() == x.cap;
+            int64_t a = nextVal++, b = (int64_t) rng.range(0, 99);
+            int64_t v = Tracked::pairValue(a, b);
+            note(x, full ? "emplace-two-args-overwrite" : "emplace-two-args");
+            log(std::string(front ? "ef2#" : "eb2#") + std::to_string(i) + "(" + std::to_string(a) + "," + std::to_string(b) + ")");
+            T *r = front ? &x.b->emplace_front(a, b) : &x.b->emplace_back(a, b);
+            if (front) { if (full) x.m.pop_back(); x.m.push_front(v); }
+            else { if (full) x.m.pop_front(); x.m.push_back(v); }
+            if (E::val(*r) != v) fail("C04", "model-mismatch", op, "emplace(a, b) did not construct the element as T(a, b): got " + std::to_string(E::val(*r)));
+        }
+    }
     // emplace with an empty argument pack: a value-initialised element
     void emplaceDefault(int i, bool front) {
         Slot &x = s[i];
@@ -425,6 +440,7 @@ struct Runner {
             else if (in(150)) { if ((i = pickValid(false, true)) >= 0) pushFront(i, rng.chance(400)); }
             else if (in(45)) { if ((i = pickValid(true, true)) >= 0) pushAlias(i, rng.chance(500)); }
             else if (in(15)) { if ((i = pickValid(false, true)) >= 0) emplaceDefault(i, rng.chance(500)); }
+            else if (in(kTracked ? 40 : 0)) { if ((i = pickValid(false, true)) >= 0) emplacePair(i, rng.chance(500)); }
             else if (in(90)) { if ((i = pickValid(true)) >= 0) popBack(i); }
             else if (in(90)) { if ((i = pickValid(true)) >= 0) popFront(i); }
             else if (in(50)) { if ((i = pickValid(true)) >= 0) writeIndex(i); }
